@@ -148,7 +148,7 @@ func jwtBearerGrantOptions(
 ) {
 
 	grantInfo := goidc.GrantInfo{
-		GrantType:     goidc.GrantClientCredentials,
+		GrantType:     goidc.GrantJWTBearer,
 		ClientID:      client.ID,
 		ActiveScopes:  req.scopes,
 		GrantedScopes: req.scopes,
